@@ -758,3 +758,49 @@ Qed.
 
 Lemma inv2_reachable : forall r st, reachable r st -> Inv2 r st.
 Proof. intros r st [ls H]. eapply inv2_exec; [apply inv_init|apply inv2_init|exact H]. Qed.
+
+(* ------------------------------------------------------------------------------------------------ *)
+(* what cancel guarantees exactly: effective iff the worker has not yet taken the entry off the queue  *)
+(* ------------------------------------------------------------------------------------------------ *)
+Definition dead_in (s : Z) (st : state) : Prop :=
+  ~ In s (taken st) /\ (forall e, In e (q st) -> e_seq e = s -> e_canc e = true) /\ s <= seq st.
+
+Lemma dead_step : forall r s st l st', Inv r st -> dead_in s st -> step r st l = Some st' -> dead_in s st'.
+Proof.
+  intros r s st l st' HI (D1 & D2 & D3) Hst. destruct l as [d|c|t|b|]; cbn in Hst.
+  - inversion Hst; subst st'; clear Hst. unfold dead_in, taken in *. proj. split; [exact D1|]. split; [|lia].
+    intros e He Ee. apply In_insert in He as [->|He]; [cbn in Ee; lia|apply D2; assumption].
+  - destruct ((1 <=? c) && (c <=? seq st)); [|discriminate]. inversion Hst; subst st'; clear Hst.
+    unfold dead_in, taken in *. proj. split; [exact D1|]. split; [|exact D3].
+    intros e He Ee. apply in_map_iff in He as (y & <- & Hy). apply set_canc_true. apply D2; [exact Hy|].
+    destruct (set_canc_key c y) as [_ <-]. exact Ee.
+  - destruct (Z.leb_spec (now st) t); [|discriminate]. inversion Hst; subst st'; clear Hst.
+    unfold dead_in, taken in *. proj. auto.
+  - destruct (worker_seg st b) as [w|] eqn:W; [|discriminate]. inversion Hst; subst st'; clear Hst.
+    destruct (worker_seg_spec st b w (I_pc _ _ HI) W) as (p & (P1 & P2 & P3 & P4) & _ & _). cbn [app] in P2.
+    unfold dead_in, taken in *. proj. split; [|split; [|exact D3]].
+    + intros Hin. rewrite app_assoc in Hin. apply in_app_or in Hin as [Hin|Hin]; [exact (D1 Hin)|].
+      rewrite P2 in Hin. apply in_map_iff in Hin as (y & Ey & Hy). apply filter_In in Hy as [Hy L].
+      assert (Hq : In y (q st)) by (rewrite P1; apply in_or_app; left; exact Hy).
+      unfold live in L. rewrite (D2 y Hq Ey) in L. discriminate.
+    + intros e He. apply D2. rewrite P1. apply in_or_app. right. exact He.
+  - destruct (spawned st) as [|x sp] eqn:Sp; [discriminate|]. inversion Hst; subst st'; clear Hst.
+    unfold dead_in, taken in *. proj. split; [|split; assumption].
+    rewrite Sp in D1. rewrite map_app, <- app_assoc. exact D1.
+Qed.
+
+Lemma dead_exec : forall r s ls st st', Inv r st -> dead_in s st -> exec r st ls = Some st' -> dead_in s st'.
+Proof.
+  intros r s ls. induction ls as [|l ls IH]; cbn; intros st st' HI D H.
+  - inversion H; subst. exact D.
+  - destruct (step r st l) as [st1|] eqn:S; [|discriminate].
+    eapply IH; [eapply inv_step; eauto|eapply dead_step; eauto|exact H].
+Qed.
+
+Lemma cancel_makes_dead : forall r s st st', ~ In s (taken st) -> step r st (Cancel s) = Some st' -> dead_in s st'.
+Proof.
+  intros r s st st' Hn Hst. cbn in Hst. destruct ((1 <=? s) && (s <=? seq st)) eqn:Rg; [|discriminate].
+  inversion Hst; subst st'; clear Hst. unfold dead_in, taken in *. proj. split; [exact Hn|]. split; [|lia].
+  intros e He Ee. apply in_map_iff in He as (y & <- & Hy). apply set_canc_hit.
+  destruct (set_canc_key s y) as [_ <-]. exact Ee.
+Qed.
